@@ -16,6 +16,7 @@ pub mod c14;
 pub mod c17;
 pub mod c18;
 pub mod c19;
+pub mod c20;
 
 pub struct Property {
     pub id: &'static str,
@@ -40,5 +41,6 @@ pub fn all() -> Vec<Property> {
         Property { id: "C17", run: c17::run, replay: c17::replay },
         Property { id: "C18", run: c18::run, replay: c18::replay },
         Property { id: "C19", run: c19::run, replay: c19::replay },
+        Property { id: "C20", run: c20::run, replay: c20::replay },
     ]
 }
